@@ -12,7 +12,11 @@ PROP = {
                                    "S_skipped_laziness", "S_excluded_redeclaration",
                                    "cases_model_optimizer_rewrote_and_variable_survives", "cases_model_optimizer_rewrote_to_variable_free",
                                    "cases_inside_hypotheses_of_C02_optimize_sound_cfg_side_ok",
-                                   "cases_that_also_met_the_previous_side_condition_strict_eq_nonstrict"]},
+                                   "cases_that_also_met_the_previous_side_condition_strict_eq_nonstrict",
+                                   "ast_tie_equal", "ast_tie_differs", "ast_tie_not_comparable_real_tree_not_printable",
+                                   "ast_tie_not_comparable_unmodelled_builtin", "ast_tie_not_comparable_fold_undecided_in_model",
+                                   "programs_the_real_optimizer_rewrote_among_dumped", "of_these_ast_tie_equal",
+                                   "of_these_also_covered_by_C02_tied_ast_sound"]},
     "trusted_base": [KERNEL, TABLES, HARNESS, NOAX,
                      "modelled, not verified against the Go source: coq/Sem/Opt.v (optimizer.Optimize, the Optimize traversals of parser2.go, const-let propagation of parseLet) is hand-written after funcGen/optimizer.go and parser2.go and tied to the code by the correspondence run (Gen.run on the model-optimized AST = implementation with the optimizer) and by the regenerated flags (C02_flags_match)",
                      "the handler flags of cfgflags (toBool, list, map, closure, method handlers present) are not read from the code; value.New() installs all of them",
